@@ -265,6 +265,9 @@ def _splice(caller, by_id, B, i, call, g):
     cont = {"id": cont_id, "elems": [dict({k_: v_ for k_, v_ in e.items() if k_ in ("col", "at")}, line=e.get("line"), x=_map_tree(e["x"], fix_cont))
                                      for e in B["elems"][i + 1:]],
             "succs": list(B["succs"]), "dead": list(B.get("dead", [])), "preds": []}
+    if not cont["elems"] and has_value and B.get("term") is not None and len([s_ for s_ in B["succs"] if s_ is not None]) > 1:
+        # the call was the whole branch condition (`if (helper(x))`): the continuation decides on the value the helper returned
+        cont["elems"].append({"line": B["elems"][i].get("line"), "col": B["elems"][i].get("col"), "x": dict(ret_ref)})
     for k in ("term", "looptarget", "noreturn"):
         if B.get(k) is not None:
             cont[k] = _map_tree(B[k], fix_cont) if isinstance(B[k], (dict, list)) else B[k]
